@@ -30,7 +30,7 @@ def run(ctx):
     mc(ctx, "tree", "BTree", "bt3v.cfg", "BTree fan-out 4, 7 keys x 2 values", coverage=False)
     walks = ctx.pick(1500, 15000)
     # R: the complete P-layer graph over 4 keys x 2 values on every key type / comparator / constructor
-    for variant in ("int", "cmp", "rev", "str"):
+    for variant in ("int", "cmp", "rev", "str", "zero"):
         lts_replay(ctx, "tree", "SortedMap", "lts_nat.cfg", "tree4", variant=variant, depth=ctx.pick(4, 5), walks=walks, wlen=40,
                    budget=ctx.pick(150000, 1500000))
     # orders with distinct-but-equivalent keys: any representative put so far may be reported
